@@ -45,6 +45,11 @@ def c07_jobs(ctx, focus=()):
             t = search.cont_task(obj=r.choice(objs), minmax=r.choice(["min", "max"]), seed=seed, dim=r.choice([2, 3]))
             cfg = {"max_cycles": r.choice([2, 4]), "fitness_error": None}
             jobs.append(({"opt": nm, "cfg": cfg, "task": t}, {"opt": nm, "cfg": cfg, "task": t, "pre_draws": r.randint(1, 50)}))
+    # the same seeded call twice on ONE instance reproduces itself (buffers kept across runs must not replace the seeded draws)
+    for nm in (search.all_names() if not ctx.quick else r.sample(search.all_names(), 30) + [n for n in focus]):
+        t = search.cont_task(obj=r.choice(["sphere", "rastrigin"]), seed=r.choice([0, 42, 7]), dim=3)
+        cfg = {"max_cycles": 4, "fitness_error": None}
+        jobs.append(({"opt": nm, "cfg": cfg, "task": t}, {"opt": nm, "cfg": cfg, "task": t, "sequence": [{"task": t}]}))
     # "in the same or in different processes": two FRESH interpreters with different string-hash seeds (hash-ordered iteration over labels, dict / set order ...),
     # on tasks whose objective works on the decoded solution (string-labelled permutation, as in the library's TSP example) and on ordinary ones
     names = search.all_names()
